@@ -92,7 +92,11 @@ fn op_on_claimed(ctx: &mut Ctx, claimant: &dyn ScopeOps, orig: &dyn ScopeOps) {
             if ctx.blocks.is_empty() {
                 return;
             }
-            let b = ctx.rng.pick(&ctx.blocks).clone();
+            let el = eligible(ctx);
+            if el.is_empty() {
+                return;
+            }
+            let b = ctx.rng.pick(&el).clone();
             let nl = Layout::from_size_align(b.size + ctx.rng.below(64) as usize + 1, b.align).unwrap();
             let r = orig.x_grow(b.ptr, Layout::from_size_align(b.size, b.align).unwrap(), nl, false, Via::Plain, 0);
             ctx.count("on_claimed grow");
@@ -105,7 +109,11 @@ fn op_on_claimed(ctx: &mut Ctx, claimant: &dyn ScopeOps, orig: &dyn ScopeOps) {
             if ctx.blocks.is_empty() {
                 return;
             }
-            let b = ctx.rng.pick(&ctx.blocks).clone();
+            let el = eligible(ctx);
+            if el.is_empty() {
+                return;
+            }
+            let b = ctx.rng.pick(&el).clone();
             let before = claimant.x_dump();
             orig.x_deallocate(b.ptr, Layout::from_size_align(b.size, b.align).unwrap(), Via::Plain, 0);
             ctx.count("on_claimed dealloc");
@@ -212,10 +220,12 @@ fn op_allocate(ctx: &mut Ctx, sc: &mut dyn ScopeOps) {
 }
 
 fn op_write(ctx: &mut Ctx, sc: &mut dyn ScopeOps) {
-    if ctx.blocks.is_empty() {
+    let el = eligible(ctx);
+    if el.is_empty() {
         return;
     }
-    let i = ctx.rng.below(ctx.blocks.len() as u64) as usize;
+    let pick = ctx.rng.pick(&el).id;
+    let i = ctx.blocks.iter().position(|b| b.id == pick).unwrap();
     let seed = ctx.rng.below(1 << 20);
     let (id, ptr, size) = (ctx.blocks[i].id, ctx.blocks[i].ptr, ctx.blocks[i].size);
     ctx.blocks[i].shadow = fill_block(ptr, size, seed);
@@ -224,10 +234,12 @@ fn op_write(ctx: &mut Ctx, sc: &mut dyn ScopeOps) {
 }
 
 fn op_split(ctx: &mut Ctx, sc: &mut dyn ScopeOps) {
-    if ctx.blocks.is_empty() {
+    let el = eligible(ctx);
+    if el.is_empty() {
         return;
     }
-    let i = ctx.rng.below(ctx.blocks.len() as u64) as usize;
+    let pick = ctx.rng.pick(&el).id;
+    let i = ctx.blocks.iter().position(|b| b.id == pick).unwrap();
     let b = ctx.blocks[i].clone();
     let at = ctx.rng.range(0, b.size as u64) as usize;
     ctx.remove_block(b.id);
@@ -240,8 +252,14 @@ fn op_split(ctx: &mut Ctx, sc: &mut dyn ScopeOps) {
     log_op(ctx, sc, &format!("split {} {at}", b.id), &format!("ok {id1} {} {at}", b.ptr));
 }
 
+/// blocks the generator may operate on: during a replayed scope only blocks created inside it
+fn eligible(ctx: &Ctx) -> Vec<Blk> {
+    ctx.blocks.iter().filter(|b| b.id >= ctx.floor).cloned().collect()
+}
+
 fn pick_block(ctx: &mut Ctx, prefer_last: bool, sc: &dyn ScopeOps) -> Option<Blk> {
-    if ctx.blocks.is_empty() {
+    let el = eligible(ctx);
+    if el.is_empty() {
         return None;
     }
     if prefer_last && ctx.rng.chance(3, 5) {
@@ -250,12 +268,12 @@ fn pick_block(ctx: &mut Ctx, prefer_last: bool, sc: &dyn ScopeOps) -> Option<Blk
         if let Some(i) = d.cur {
             let pos = d.fwd[i].pos;
             let up = sc.x_up();
-            if let Some(b) = ctx.blocks.iter().rev().find(|b| if up { b.ptr + b.size == pos } else { b.ptr == pos }) {
+            if let Some(b) = el.iter().rev().find(|b| if up { b.ptr + b.size == pos } else { b.ptr == pos }) {
                 return Some(b.clone());
             }
         }
     }
-    Some(ctx.rng.pick(&ctx.blocks).clone())
+    Some(ctx.rng.pick(&el).clone())
 }
 
 fn op_dealloc(ctx: &mut Ctx, sc: &mut dyn ScopeOps) {
@@ -701,6 +719,46 @@ fn op_scope(ctx: &mut Ctx, sc: &mut dyn ScopeOps, orig: Option<&dyn ScopeOps>, d
     if depth >= 6 {
         return;
     }
+    // ---- C03 (replay): the same workload in a second scope needs no new memory from the base allocator
+    if !ctx.fail_injected && !ctx.replaying && ctx.rng.chance(1, 4) {
+        let rng0 = ctx.rng.clone();
+        let ops0 = ctx.ops_left;
+        let fails0 = BASE.with(|b| b.borrow().total_failures);
+        ctx.replaying = true;
+        let floor0 = ctx.floor;
+        ctx.floor = ctx.next_id;
+        let cp_floor0 = ctx.cp_floor;
+        ctx.cp_floor = ctx.next_key;
+        ctx.out.push_str("# replay-first\n");
+        op_scope_once(ctx, sc, orig, depth);
+        let clean = BASE.with(|b| b.borrow().total_failures) == fails0;
+        if clean && ops0 > 0 {
+            let calls0 = BASE.with(|b| b.borrow().alloc_calls);
+            let (rng1, ops1) = (ctx.rng.clone(), ctx.ops_left);
+            ctx.rng = rng0;
+            ctx.ops_left = ops0;
+            ctx.br("scope replayed");
+            ctx.floor = ctx.next_id;
+            ctx.cp_floor = ctx.next_key;
+            ctx.out.push_str("# replay-second\n");
+            op_scope_once(ctx, sc, orig, depth);
+            ctx.out.push_str("# replay-end\n");
+            let calls1 = BASE.with(|b| b.borrow().alloc_calls);
+            if calls1 != calls0 {
+                ctx.oracle("C03", format!("REPLAY: repeating the same workload in a new scope made {} new request(s) to the base allocator", calls1 - calls0));
+            }
+            ctx.rng = rng1;
+            ctx.ops_left = ops1;
+        }
+        ctx.replaying = false;
+        ctx.floor = floor0;
+        ctx.cp_floor = cp_floor0;
+        return;
+    }
+    op_scope_once(ctx, sc, orig, depth);
+}
+
+fn op_scope_once(ctx: &mut Ctx, sc: &mut dyn ScopeOps, orig: Option<&dyn ScopeOps>, depth: usize) {
     let mode = ctx.rng.below(3) as u8;
     let panics = mode == 0 && ctx.rng.chance(1, 6);
     let snap = scope_snap(ctx, sc);
@@ -734,7 +792,7 @@ fn op_scope(ctx: &mut Ctx, sc: &mut dyn ScopeOps, orig: Option<&dyn ScopeOps>, d
 fn op_checkpoint(ctx: &mut Ctx, sc: &mut dyn ScopeOps) {
     let depth_marks = ctx.marks.len();
     // reset to a checkpoint that is not older than the innermost open scope
-    let usable: Vec<usize> = ctx.user_cps.iter().enumerate().filter(|(_, c)| ctx.marks.iter().all(|m| *m <= c.2)).map(|(i, _)| i).collect();
+    let usable: Vec<usize> = ctx.user_cps.iter().enumerate().filter(|(_, c)| c.0 >= ctx.cp_floor && ctx.marks.iter().all(|m| *m <= c.2)).map(|(i, _)| i).collect();
     if !usable.is_empty() && ctx.rng.chance(1, 2) {
         let i = *ctx.rng.pick(&usable);
         let (key, cp, mark, _) = ctx.user_cps[i].clone();
